@@ -15,6 +15,8 @@ pub struct Model {
     pub lr_node: NodeId,
     /// compare the result kind only (inner race_ok errors)
     pub lr_res_only: bool,
+    /// the items of this run are zero-sized: only their number can be compared
+    pub unit_items: bool,
     /// the root was built by dynnest.rs (its race_ok error is re-packaged like an inner one)
     pub dyn_root: bool,
     /// provenance (child position) of every item the root yielded (merge fairness)
@@ -316,7 +318,11 @@ fn flat(w: &World, vals: &[u32]) -> Vec<u32> {
 /// Compare what a combinator returned with what its model requires. Values are compared after flattening
 /// composites (outputs of inner combinators) into the leaf-produced values they consist of.
 fn expect(w: &mut World, oracle: &'static str, out: &Out, res: Res, vals: &[u32], why: &str) {
-    let differs = out.res != res || (res != Res::Pending && res != Res::None && !w.model.lr_res_only && flat(w, &out.vals) != flat(w, vals));
+    let differs = out.res != res
+        || (res != Res::Pending
+            && res != Res::None
+            && !w.model.lr_res_only
+            && if w.model.unit_items { out.vals.len() != flat(w, vals).len() } else { flat(w, &out.vals) != flat(w, vals) });
     if differs {
         let got = fmt_out(out);
         let want = format!("{}{}", res.name(), fmt_vals(vals));
@@ -684,7 +690,7 @@ pub fn at_end(w: &mut World) {
     }
     for v in 0..w.vals.len() as u32 {
         let i = &w.vals[v as usize];
-        if i.dropped != 1 {
+        if i.dropped != 1 && !i.untracked {
             let d = i.dropped;
             let by = i.by;
             w.flag("c02.val_drop", || format!("value v{v} (produced by n{by}) dropped {d} times (expected exactly once)"));
